@@ -46,7 +46,7 @@ using UMapT = std::unordered_map<std::uint8_t, std::int16_t>;
 
 VT_STD(vt::VecU8, vecu8, 7)
 VT_STD(vt::VecU32, vecu32, 16)
-VT_STD(vt::VecPair, vecpair, 18)
+VT_STD(vt::VecPair, vecpair, 12)
 VT_STD(vt::Str, str, 10)
-VT_STD(vt::MapT, map, 16)
-VT_STD(vt::UMapT, umap, 16)
+VT_STD(vt::MapT, map, 12)
+VT_STD(vt::UMapT, umap, 12)
